@@ -393,6 +393,43 @@ impl<'a> Gen<'a> {
         }
         let mut since_term = vec![0usize; n_hosts];
         let target = self.rng.range(30, if self.tier == Tier::Quick { 140 } else { 200 }) as usize;
+        if cfgs[0].is_phonetic() && cfgs[0].has(PHON_SUG) && cfgs[0].data != DataKind::Full && self.rng.below(300) == 0 {
+            // a marathon: a few hundred different words in one context (whatever the context
+            // accumulates per word grows past a thousand entries), and after many of the keys a
+            // key without a character, passed the highest selection that is valid for the list
+            // just shown - it must come back with a list and a selection that fit each other
+            let dead = self.env.keys.keys.iter().find(|k| k.name == "VC_KP_ENTER").map(|k| k.code).unwrap_or(0x0E1C);
+            let n_words = self.rng.range(180, 300);
+            for _ in 0..n_words {
+                let mut w: String = self.rng.pick(&self.env.dict_spellings).chars().filter(|c| c.is_ascii_alphabetic()).take(7).collect();
+                if self.rng.pct(40) {
+                    w.push_str(&self.short_suffix());
+                }
+                for c in w.chars() {
+                    if let Some(k) = key_for(self.env, c) {
+                        ops.push(Op::Key { h: 0, key: k, m: 0, sel: if valid_sel { Sel::Presel } else { Sel::Raw(0) } });
+                        if self.rng.pct(45) {
+                            ops.push(Op::Key { h: 0, key: dead, m: 0, sel: if valid_sel { Sel::Top(0) } else { Sel::Raw(self.rng.next_u64() as u8) } });
+                        }
+                    }
+                }
+                ops.push(Op::Finish { h: 0 });
+            }
+        }
+        if !cfgs[0].is_phonetic() && cfgs[0].has(FIXED_SUG) {
+            // the emoji table has a thousand Bengali names with one to ten emoji each: a few of
+            // them as whole words at the start of every fixed-layout run with the list on, so
+            // that a batch meets every name several times under every option pattern
+            if let Some(l) = self.env.layout(cfgs[0].layout) {
+                for _ in 0..3 {
+                    let name = self.rng.pick(&self.env.bn_emoji_names).to_string();
+                    if let Some(keys) = self.fixed_keys_for_text(l, 0, &name) {
+                        ops.extend(keys);
+                        ops.push(Op::Finish { h: 0 });
+                    }
+                }
+            }
+        }
         if cfgs[0].data == DataKind::Big {
             // where the selection byte (u8) stops covering the list (usize): a word with
             // several hundred candidates, then a selection-preserving mark with a selection
@@ -1304,9 +1341,20 @@ impl<'a> Gen<'a> {
         // derived from a choice that has been replaced since)
         let mut family_word: Option<String> = None;
         if cfg.is_phonetic() && cfg.has(PHON_SUG) && self.rng.pct(8) {
-            let stem: String = self.rng.pick(&self.env.dict_spellings).chars().filter(|c| c.is_ascii_alphabetic()).take(5).collect();
+            let digraph = self.rng.pct(40);
+            let stem: String = if digraph {
+                // a very short learned word: two letters that make one character
+                self.rng.pick(&["sh", "ng", "ee", "ou", "aa", "kh", "gh", "ch", "th", "dh", "ph", "bh", "oi", "rr", "OI", "Sh"]).to_string()
+            } else {
+                self.rng.pick(&self.env.dict_spellings).chars().filter(|c| c.is_ascii_alphabetic()).take(5).collect()
+            };
             if !stem.is_empty() {
-                let suffixed = format!("{}{}", stem, self.short_suffix());
+                let suffixed = if digraph {
+                    // ... and later a word that begins with its first letter
+                    format!("{}{}", &stem[..1], self.random_letters(0, 3))
+                } else {
+                    format!("{}{}", stem, self.short_suffix())
+                };
                 self.type_text(&mut ops, 0, &stem, Sel::Presel);
                 ops.push(Op::Commit { h: 0, idx: Idx::Rel(self.rng.range(1, 3) as u8) });
                 self.type_text(&mut ops, 0, &suffixed, Sel::Presel);
@@ -1404,6 +1452,10 @@ impl<'a> Gen<'a> {
             if !with_letters.is_empty() {
                 return self.rng.pick(&with_letters).to_string();
             }
+        }
+        if self.rng.pct(15) && !self.env.joining_spellings.is_empty() {
+            // a word whose candidates end in KHANDA TA or ANUSVARA (the joining rules)
+            return self.rng.pick(&self.env.joining_spellings).clone();
         }
         let w = match self.rng.weighted(&[45, 20, 20, 15]) {
             0 => self.rng.pick(&self.env.dict_spellings).clone(),
@@ -1699,7 +1751,16 @@ impl<'a> Gen<'a> {
                     }
                     3 => {
                         let file = if self.rng.pct(60) { FileId::Store } else { FileId::Autocorrect };
-                        let st = self.malformed_doc();
+                        let st = if self.rng.pct(30) {
+                            // a well-formed document for the run's word with something behind it
+                            // (a shorter overwrite in front of the stale tail of a longer file)
+                            let core: String = focus.chars().filter(|c| c.is_ascii_alphabetic()).collect();
+                            let head = if core.is_empty() { "{\"a\":\"b\"}".to_string() } else { self.autocorrect_doc(&core) };
+                            let tail = *self.rng.pick(&["}", "\"}", " x", "{\"k\":\"v\"}", ",\"z\":\"y\"}", "]", "\u{0}"]);
+                            FileSt::Text(format!("{}{}", head, tail))
+                        } else {
+                            self.malformed_doc()
+                        };
                         ops.push(Op::SetFile { file, st, mt: Mt::Now });
                         next = 1 + self.rng.below(3) as u32;
                     }
@@ -2153,6 +2214,13 @@ impl<'a> Gen<'a> {
                         if live_updates && self.rng.pct(60) {
                             self.live_option_flip(&mut cfg, &flippable);
                             ops.push(Op::Update { h: 0, cfg });
+                            if self.rng.pct(35) {
+                                // the key pressed last before the update is the first one after it
+                                if let Some(k) = ops.iter().rev().find(|o| matches!(o, Op::Key { .. })).cloned() {
+                                    ops.push(k);
+                                    since += 1;
+                                }
+                            }
                         }
                     }
                 }
@@ -2178,6 +2246,13 @@ impl<'a> Gen<'a> {
                     if live_updates && self.rng.pct(60) {
                         self.live_option_flip(&mut cfg, &flippable);
                         ops.push(Op::Update { h: 0, cfg });
+                        if self.rng.pct(35) {
+                            // the key pressed last before the update is the first one after it
+                            if let Some(k) = ops.iter().rev().find(|o| matches!(o, Op::Key { .. })).cloned() {
+                                ops.push(k);
+                                since += 1;
+                            }
+                        }
                     }
                 }
                 _ => {
@@ -2351,6 +2426,13 @@ impl<'a> Gen<'a> {
                 if uo_all.iter().chain(to_all.iter()).any(|o| o.is_none()) {
                     sync = None;
                 }
+                // a key without a character right after the sign that was typed first (it waits
+                // over whatever is there): the sign must go on waiting
+                let dead_key: Option<u16> = if !t.is_empty() && left_signs.contains(&t[0].as_str()) && self.rng.pct(5) {
+                    self.env.keys.keys.iter().find(|k| k.name == "VC_KP_ENTER").map(|k| k.code)
+                } else {
+                    None
+                };
                 let (us, ts) = sync.unwrap_or((uo_all.len(), to_all.len()));
                 let mut uo: Vec<Op> = Vec::new();
                 let mut uo2: Vec<Op> = Vec::new();
@@ -2370,7 +2452,15 @@ impl<'a> Gen<'a> {
                             to.push(Op::Mark { tag: 3 });
                         }
                         if i < ts { to.push(op) } else { to2.push(op) }
+                        if i == 0 {
+                            if let Some(k) = dead_key {
+                                to.push(Op::Key { h: 1, key: k, m: 0, sel: Sel::Raw(0) });
+                            }
+                        }
                     }
+                }
+                if let Some(k) = dead_key {
+                    uo.insert(0, Op::Key { h: 0, key: k, m: 0, sel: Sel::Raw(0) });
                 }
                 if self.rng.coin() {
                     ops.append(&mut uo);
